@@ -2,6 +2,7 @@ import OapiVerif.Model.Walks
 import OapiVerif.Proofs.Responses
 import OapiVerif.Gen.C02
 import OapiVerif.Proofs.SchemaOrder
+import OapiVerif.Proofs.TypeDedup
 /-!
 C02 — Generation is deterministic.
 
@@ -174,3 +175,28 @@ example : ole 4 ⟨[99], some (-1)⟩ ⟨[98], none⟩ = true ∧ ole 4 ⟨[98],
     ole 4 ⟨[100], none⟩ ⟨[97], some 5⟩ = true ∧ ole 4 ⟨[97], some 5⟩ ⟨[98], none⟩ = false := by decide
 
 end OapiVerif.SchemaOrder
+
+namespace OapiVerif.TypeDedup
+
+/-- `constructImportMapping` walks a Go map twice; the package name of a path is the same for any two hand-out orders of
+the mapping (and depends on the set of package paths only). -/
+theorem C02_import_names_perm_invariant (m₁ m₂ : List (Str × Str)) (h : m₁.Perm m₂) (p : Str) :
+    pkgName m₁ p = pkgName m₂ p :=
+  pkgName_congr m₁ m₂ (fun x => (h.map (·.2)).mem_iff) p
+
+/-- …and the entries of the result are the same set -/
+theorem C02_import_mapping_perm_invariant (m₁ m₂ : List (Str × Str)) (h : m₁.Perm m₂) :
+    (construct m₁).Perm (construct m₂) := by
+  unfold construct
+  have : (fun (x : Str × Str) => (pkgName m₁ x.2).map fun n => (x.1, n, x.2)) =
+      (fun (x : Str × Str) => (pkgName m₂ x.2).map fun n => (x.1, n, x.2)) := by
+    funext x; rw [C02_import_names_perm_invariant m₁ m₂ h]
+  show (m₁.filterMap fun (x : Str × Str) => (pkgName m₁ x.2).map fun n => (x.1, n, x.2)).Perm
+    (m₂.filterMap fun (x : Str × Str) => (pkgName m₂ x.2).map fun n => (x.1, n, x.2))
+  rw [this]
+  exact h.filterMap _
+
+example : pkgName [([1], [9]), ([2], [3])] [9] = pkgName [([2], [3]), ([1], [9])] [9] ∧
+    pkgName [([1], [9]), ([2], [3])] [9] = some (externalRef ++ [49]) := by decide
+
+end OapiVerif.TypeDedup
